@@ -94,6 +94,23 @@ def check_twins(res, med, when):
         res.label("second-network-checked")
 
 
+def recheck_registers(res, nodes, pop, mc, px, sx, tag):
+    """after traffic every node must listen on exactly the addresses it listened on after configuration"""
+    for a in pop:
+        chip = nodes[a][1]
+        got = [chip.pipe_addr(p) for p in range(6)]
+        want = netaddr.listening_addresses(a, mc, None, px, sx)
+        res.counts["node_pipe_addresses_after_traffic"] = res.counts.get("node_pipe_addresses_after_traffic", 0) + 6
+        if chip.reg[2] & 0x3F != 0x3F:
+            res.fail("C04/pipe-closed" + tag, "node %o has EN_RXADDR 0x%02X" % (a, chip.reg[2]))
+            return
+        for p in range(6):
+            if got[p] != want[p]:
+                res.fail("C04/pipe%d-address-differs%s" % (min(p, 1), tag), "node %o pipe %d listens on %s, reference %s" % (
+                    a, p, got[p].hex(), want[p].hex()))
+                return
+
+
 def run_case(case):
     L = boot.lib()
     res = Result()
@@ -282,6 +299,7 @@ def run_case(case):
                             c.flags = 0
                         while nodes[a][0].available():
                             nodes[a][0].read()
+        recheck_registers(res, nodes, pop, mc, px, sx, tag + "/after-traffic")
     except SimHorizon:
         res.fail("C04/does-not-terminate", "virtual time horizon")
     except Exception as e:  # noqa: BLE001
